@@ -84,7 +84,8 @@ func init() {
 	Register(&Prop{
 		ID:    "C09",
 		Title: "Path selectors evaluate per the documented grammar and fail only with errors",
-		Rule: "generator A (2/3 of cases): rapid draws a JSON-like document (objects/arrays to depth 4, ragged arrays, arrays of arrays also holding NULL / scalar / object rows, records of numeric texts in every spelling for the {k|number} pipe, keys that " +
+		Rule: "[Dimensions added in rounds p-r of the seeded-defect evaluation: documents handed to ExecReader carry spare capacity in every array; 1 case in 40 evaluates `<fn>=><key>` before and after <fn> is registered; when the selector starts with a top-level function the same path under two other functions is evaluated in between.] " +
+			"generator A (2/3 of cases): rapid draws a JSON-like document (objects/arrays to depth 4, ragged arrays, arrays of arrays also holding NULL / scalar / object rows, records of numeric texts in every spelling for the {k|number} pipe, keys that " +
 			"need quoting) and derives a selector step by step from the value reached so far (key existing/missing, [i], [i:j:k], each, keep=>, " +
 			"(m:n) with begin/end, pipes with |string |number, quoted keys, :: continuation, mix=> distinct=> and harness-registered fn=>), with " +
 			"~15% deliberately invalid steps (index == len or beyond, range end > len or begin > end, index/each/key/pipe on a value of the wrong " +
